@@ -1,32 +1,67 @@
-(* C20, printf part: printf_format is memory-safe and total on arbitrary input.
+(* C20, printf part: printf_format is memory-safe and total on arbitrary input, and fetches exactly the
+   variadic arguments its directives name.
 
-   FULL STATEMENT (DESIGN section 4, C20):
-     for EVERY byte list s (the buffer is s ++ [0], exactly), every argument list and every initial
-     content of the 9-cell positional cache: printf_format terminates within fuel (length s + 1),
-     reads only indices <= length s, never overflows an int, ends in Ok or AssertStop - never UB -
-     AND fetches exactly the arguments the directives name ("*", ".*", the converted value; for n$
-     the positions up to n).
+   C20_printf_total_safe (the FULL statement of DESIGN section 4, C20): for EVERY byte list s (the buffer is
+   s ++ [0], exactly; every byte is read through [read], which is UB "oob" beyond the NUL; int accumulation is
+   UB "signed overflow" outside int), every initial content of the (>= 9 cell) positional cache, and every
+   argument list [args] that supplies the arguments the format names -
+       named_args s = Some ks          (coq/Printf/NamedArgs.v: an independent list-level reading of the directive
+                                        syntax: "*", ".*", the converted value with its kind; for n$ the positions up
+                                        to n not named before; None = a position named with two different kinds)
+       args_ok mem ks args             = at least length ks arguments, and every argument named as a %s string is a
+                                        null pointer or points (in mem) to a buffer that contains a NUL
+   - run_printf (fuel = length s + 1) ends in Ok or in AssertStop, never in UB and never out of fuel; when it ends
+   in Ok the va_arg log is exactly (the va_arg classes of) ks, when it stops in the assertion hook it is a
+   prefix of it: no variadic argument beyond those the directives consume is ever fetched.
+   The three faults of the argument list (too few arguments, invalid %s pointer, unterminated %s string) are
+   hypotheses (args_ok), not exceptions in the conclusion.
 
-   PROVED below (C20_printf_total_safe_partial): everything except the last clause.  [run_printf]
-   runs the parser with fuel S (length s); every byte is read through [read], which is
-   UB "oob: format string read past its NUL" for an index > length s; the int accumulations are
-   UB "signed overflow" when they leave int; the theorem excludes OutOfFuel and every UB that is not a
-   fault of the argument list itself (too few arguments for the directives, a %s argument that is not a
-   pointer to a string / not terminated within its buffer - the three messages of [caller_fault]).
-   The exact-fetch clause is proved for well-formed input only (C20_printf_fetches_named_directive: for
-   every directive of the grammar without n$, the va_arg log is exactly "*", ".*", the converted value, every
-   supplied argument is consumed and the positional cache is untouched).
-   MISSING for arbitrary byte lists: an independent list-level definition of "the arguments a format
-   names" and a proof that the parser's va_arg log equals it; the check covers it dynamically
-   (comp/printf/gen.py scan_args is that independent definition; the harness reads the number of
-   fetches off the real va_list and the model's log is compared with it, kind "va-overrun"). *)
+   C20_printf_no_internal_ub (the former _partial) covers the remaining inputs - formats that name an argument
+   position with two kinds (named_args = None, e.g. "%1$d%1$s": D33 territory) or argument lists that do not
+   satisfy args_ok: still no out-of-bounds format read, no signed overflow, no cache overrun, termination; the
+   only UB outcomes left are those three argument-list faults.
+   C20_printf_fetches_named_directive: the complete final state for grammar directives without n$. *)
 From Coq Require Import String.
 From Coq Require Import NArith ZArith List Bool.
 From FV Require Import Printf.PrintIntModel Printf.PrintfModel Printf.PrintfSafety Printf.IsoPrintf Printf.PrintfConform
-  Printf.PrintfStageA Printf.PrintfConformProofs.
+  Printf.PrintfStageA Printf.PrintfConformProofs Printf.NamedArgs Printf.PrintfNamedProofs.
 Import ListNotations.
 
-Theorem C20_printf_total_safe_partial :
+Theorem C20_printf_total_safe :
+  forall (mem : memory) (s : list byte) (args cache : list N) (ks : list argkind),
+    (9 <= length cache)%nat ->
+    named_args s = Some ks ->
+    args_ok mem ks args ->
+    let r := run_printf mem s args cache in
+    match snd r with
+    | Ok _ => va_pops (ps_vs (fst r)) = map kind_va ks
+    | AssertStop _ => exists pre, is_prefix pre ks /\ va_pops (ps_vs (fst r)) = map kind_va pre
+    | UB _ => False
+    | OutOfFuel => False
+    end.
+Proof. exact printf_format_named. Qed.
+Print Assumptions C20_printf_total_safe.
+
+(* non-vacuity: what some formats name; a format with enough arguments of the right kinds; a kind conflict *)
+Example C20_printf_total_safe_examples :
+  (* "a%%%-+ 0'12.34lld%2$*.*hhx" *)
+  named_args [97; 37; 37; 37; 45; 43; 32; 48; 39; 49; 50; 46; 51; 52; 108; 108; 100; 37; 50; 36; 42; 46; 42; 104; 104; 120]%N
+    = Some [KLLong; KInt; KInt]
+  (* "%*.*s%p%5" : cut off inside the last directive *)
+  /\ named_args [37; 42; 46; 42; 115; 37; 112; 37; 53]%N = Some [KInt; KInt; KStr; KPtr]
+  /\ args_ok [(4096, [104; 105; 0])]%N [KInt; KInt; KStr; KPtr] [7; 1; 4096; 77; 99]%N
+  /\ (let r := run_printf [(4096, [104; 105; 0])]%N [37; 42; 46; 42; 115; 37; 112; 37; 53]%N [7; 1; 4096; 77; 99]%N (repeat 0%N 9) in
+      snd r = AssertStop "*s" /\ va_pops (ps_vs (fst r)) = [ATInt; ATInt; ATPtr; ATPtr] /\ va_rest (ps_vs (fst r)) = [99%N])
+  (* "%1$d%1$s" names argument 1 as an int and as a string *)
+  /\ named_args [37; 49; 36; 100; 37; 49; 36; 115]%N = None.
+Proof.
+  repeat split; try reflexivity.
+  - cbn. repeat constructor.
+  - intros j Hj Hk. destruct j as [|[|[|[|j]]]]; cbn in Hk; try discriminate; try (destruct j; discriminate).
+    right. exists [104; 105; 0]%N. split; reflexivity.
+Qed.
+
+Theorem C20_printf_no_internal_ub :
   forall (mem : memory) (s : list byte) (args cache : list N),
     (9 <= length cache)%nat ->
     match snd (run_printf mem s args cache) with
@@ -36,11 +71,11 @@ Theorem C20_printf_total_safe_partial :
     | OutOfFuel => False
     end.
 Proof. exact printf_format_total_safe. Qed.
-Print Assumptions C20_printf_total_safe_partial.
+Print Assumptions C20_printf_no_internal_ub.
 
 (* non-vacuity: a format that reaches every part of the parser ends Ok; a cut-off directive and an
    overlong width stop in the assertion hook (the former D31); a missing argument is a caller fault *)
-Example C20_printf_total_safe_examples :
+Example C20_printf_no_internal_ub_examples :
   let run f args := snd (run_printf [] f args (repeat 0%N 9)) in
   (* "a%%%-+ #0'12.34lld%2$*.*hhx" *)
   run [97; 37; 37; 37; 45; 43; 32; 48; 39; 49; 50; 46; 51; 52; 108; 108; 100; 37; 50; 36; 42; 46; 42; 104; 104; 120]%N
